@@ -123,7 +123,6 @@ func ruleJ5(c *an.Ctx) {
 	c.Floor("J5", "values handed out by the key encoders", n, 2)
 }
 
-
 // J7: every map-keyed part of a fork id contributes its key.  ForkId.forkId builds the id string
 // part by part; array-indexed parts are folded into one number, a map-keyed part is written as
 // `fork_<key>` and the function then recurses for the remaining parts.  A recursive call that
